@@ -1,39 +1,105 @@
-// Container operations: rendering (Koto source, model request) and the harness-side copy of the
-// sequential semantics used only to *search* for a linearization (the found order is then
-// validated by the Lean model).
+// Container operations: model operation + surface form (how it is written in Koto), rendering
+// (Koto source, model request) and the harness-side copy of the sequential semantics used only to
+// *search* for a linearization (the found order is then validated by the Lean model).
+//
+// Map keys are the strings 'k<n>' in Koto (so that `m.k3` / `m.k3 = v` can be exercised) and the
+// integers n in the model; a stored `null` (one-argument `m.insert k`) is NULLV in the model.
+
+const NULLV: i64 = -999999;
 
 #[derive(Clone, Debug, PartialEq, Eq, Hash)]
 enum Op {
-    // list
+    // ---- list: model operation (surface form) ----
     Push(i64),
     Pop,
     Size,
-    Get(usize),
+    Get(usize),      // l.get(i)
+    GetIdx(usize),   // l[i]            (error → null)
     First,
     Last,
     Contains(i64),
-    Set(usize, i64),
+    Set(usize, i64), // l[i] = x
     Clear,
     Fill(i64),
     Reverse,
-    Snap,
-    // map
+    Snap,                     // l.to_tuple()
+    SnapVia(&'static str),    // copy / deep_copy / display / debug / concat / slice
+    Sort,
+    Resize(usize, i64),
+    Extend(Vec<i64>),
+    ExtendVia(&'static str, Vec<i64>), // tuple / range-less iterator argument forms
+    Insert(usize, i64),
+    Remove(usize),
+    Retain(i64),
+    IsEmpty,
+    EqTo(Vec<i64>),
+    NeTo(Vec<i64>), // not (l != [..])
+    SwapWith(Vec<i64>),
+    AddAll(i64), // l.transform |x| x + d
+    // ---- map ----
     Ins(i64, i64),
+    Ins1(i64),
+    Put(i64, i64), // m.k = v
     Rem(i64),
     MGet(i64),
+    MAccess(i64), // m.k (error → null)
     Has(i64),
     MSize,
     MClear,
     GetI(usize),
+    MIdx(usize), // m[i] (error → null)
+    MSort,
+    MExtend(Vec<(i64, i64)>),
+    MIsEmpty,
+    MSnapVia(&'static str), // copy / deep_copy / display / debug
+    MEqTo(Vec<(i64, i64)>),
+    // ---- compound (several guards / callbacks): executed, result not compared ----
+    Compound(&'static str),
+}
+
+fn ints_sp(xs: &[i64]) -> String {
+    xs.iter().map(|x| x.to_string()).collect::<Vec<_>>().join(" ")
+}
+fn ints_cs(xs: &[i64]) -> String {
+    xs.iter().map(|x| x.to_string()).collect::<Vec<_>>().join(", ")
+}
+fn map_lit(es: &[(i64, i64)]) -> String {
+    format!("{{{}}}", es.iter().map(|(k, v)| format!("k{}: {}", k, v)).collect::<Vec<_>>().join(", "))
+}
+
+/// Koto source of the compound operations (container is `c`; nothing is recorded but 'u')
+fn compound_src(name: &str) -> &'static str {
+    match name {
+        "list.retain(f)" => "c.retain(|x| x % 7 != 3)",
+        "list.resize_with" => "c.resize_with(size(c) + 1, || 5)",
+        "list.sort(f)" => "c.sort(|x| 0 - x)",
+        "list.iter.to_tuple" => "c.iter().to_tuple()",
+        "list.for" => "for x in c\n    null",
+        "list.iter.consumers" => "(c.sum(), c.count(), c.min(), c.max(), c.to_list(), c.to_string())",
+        "list.unpack" => "(a, b, rest...) = c",
+        "list.match" => "match c\n    (first, others...) then first\n    else null",
+        "map.update" => "c.update('k1', 0, |v| if v == null then 0 else v + 1)",
+        "map.sort(f)" => "c.sort(|k, v| k)",
+        "map.keys" => "c.keys().to_tuple()",
+        "map.values" => "c.values().to_tuple()",
+        "map.for" => "for k, v in c\n    null",
+        "map.get_meta" => "c.get_meta()",
+        "map.with_meta" => "c.with_meta({@type: 'T'})",
+        _ => "null",
+    }
 }
 
 impl Op {
+    fn is_compound(&self) -> bool {
+        matches!(self, Op::Compound(_))
+    }
+    /// the model operation (request text for the driver)
     fn sexp(&self) -> String {
         match self {
             Op::Push(x) => format!("(push {})", x),
             Op::Pop => "(pop)".into(),
             Op::Size | Op::MSize => "(size)".into(),
-            Op::Get(i) => format!("(get {})", i),
+            Op::Get(i) | Op::GetIdx(i) => format!("(get {})", i),
             Op::First => "(first)".into(),
             Op::Last => "(last)".into(),
             Op::Contains(x) => format!("(contains {})", x),
@@ -41,12 +107,27 @@ impl Op {
             Op::Clear | Op::MClear => "(clear)".into(),
             Op::Fill(x) => format!("(fill {})", x),
             Op::Reverse => "(reverse)".into(),
-            Op::Snap => "(snap)".into(),
+            Op::Snap | Op::SnapVia(_) | Op::MSnapVia(_) => "(snap)".into(),
+            Op::Sort | Op::MSort => "(sort)".into(),
+            Op::Resize(n, x) => format!("(resize {} {})", n, x),
+            Op::Extend(xs) | Op::ExtendVia(_, xs) => format!("(extend {})", ints_sp(xs)).replace(" )", ")"),
+            Op::Insert(i, x) => format!("(insert {} {})", i, x),
+            Op::Remove(i) => format!("(remove {})", i),
+            Op::Retain(x) => format!("(retain {})", x),
+            Op::IsEmpty | Op::MIsEmpty => "(isempty)".into(),
+            Op::EqTo(xs) | Op::NeTo(xs) => format!("(eq {})", ints_sp(xs)).replace(" )", ")"),
+            Op::SwapWith(xs) => format!("(swap {})", ints_sp(xs)).replace(" )", ")"),
+            Op::AddAll(d) => format!("(addall {})", d),
             Op::Ins(k, v) => format!("(ins {} {})", k, v),
+            Op::Ins1(k) => format!("(ins1 {})", k),
+            Op::Put(k, v) => format!("(put {} {})", k, v),
             Op::Rem(k) => format!("(rem {})", k),
-            Op::MGet(k) => format!("(get {})", k),
+            Op::MGet(k) | Op::MAccess(k) => format!("(get {})", k),
             Op::Has(k) => format!("(has {})", k),
-            Op::GetI(i) => format!("(geti {})", i),
+            Op::GetI(i) | Op::MIdx(i) => format!("(geti {})", i),
+            Op::MExtend(es) => format!("(extend {})", es.iter().map(|(k, v)| format!("({} {})", k, v)).collect::<Vec<_>>().join(" ")).replace(" )", ")"),
+            Op::MEqTo(es) => format!("(eq {})", es.iter().map(|(k, v)| format!("({} {})", k, v)).collect::<Vec<_>>().join(" ")).replace(" )", ")"),
+            Op::Compound(n) => format!("(compound {})", n.replace(' ', "_")),
         }
     }
     /// Koto statements (inside `run = |c|`, results appended to `r`)
@@ -56,6 +137,7 @@ impl Op {
             Op::Pop => "  r.push(c.pop())\n".into(),
             Op::Size | Op::MSize => "  r.push(size(c))\n".into(),
             Op::Get(i) => format!("  r.push(c.get({}))\n", i),
+            Op::GetIdx(i) | Op::MIdx(i) => format!("  r.push(idx_at(c, {}))\n", i),
             Op::First => "  r.push(c.first())\n".into(),
             Op::Last => "  r.push(c.last())\n".into(),
             Op::Contains(x) => format!("  r.push(c.contains({}))\n", x),
@@ -64,24 +146,78 @@ impl Op {
             Op::Fill(x) => format!("  c.fill({})\n  r.push('u')\n", x),
             Op::Reverse => "  c.reverse()\n  r.push('u')\n".into(),
             Op::Snap => "  r.push(c.to_tuple())\n".into(),
-            Op::Ins(k, v) => format!("  r.push(c.insert({}, {}))\n", k, v),
-            Op::Rem(k) => format!("  r.push(c.remove({}))\n", k),
-            Op::MGet(k) => format!("  r.push(c.get({}))\n", k),
-            Op::Has(k) => format!("  r.push(c.contains_key({}))\n", k),
+            Op::SnapVia(f) | Op::MSnapVia(f) => match *f {
+                "copy" => "  r.push(copy(c))\n".into(),
+                "deep_copy" => "  r.push(koto.deep_copy(c))\n".into(),
+                "display" => "  r.push('{c}')\n".into(),
+                "debug" => "  r.push('{c:?}')\n".into(),
+                "concat" => "  r.push(c + [])\n".into(),
+                "slice" => "  r.push(c[..])\n".into(),
+                _ => "  r.push(c.to_tuple())\n".into(),
+            },
+            Op::Sort | Op::MSort => "  c.sort()\n  r.push('u')\n".into(),
+            Op::Resize(n, x) => format!("  c.resize({}, {})\n  r.push('u')\n", n, x),
+            Op::Extend(xs) => format!("  c.extend([{}])\n  r.push('u')\n", ints_cs(xs)),
+            Op::ExtendVia(f, xs) => match *f {
+                "tuple" => format!("  c.extend(({},))\n  r.push('u')\n", ints_cs(xs)).replace("((,))", "(())"),
+                _ => format!("  c.extend([{}].each(|x| x))\n  r.push('u')\n", ints_cs(xs)),
+            },
+            Op::Insert(i, x) => format!("  r.push(try_call(|| c.insert({}, {})))\n", i, x),
+            Op::Remove(i) => format!("  r.push(try_val(|| c.remove({})))\n", i),
+            Op::Retain(x) => format!("  c.retain({})\n  r.push('u')\n", x),
+            Op::IsEmpty | Op::MIsEmpty => "  r.push(c.is_empty())\n".into(),
+            Op::EqTo(xs) if xs.len() > 50 => "  r.push(c == big_ref)\n".into(),
+            Op::NeTo(xs) if xs.len() > 50 => "  r.push(not (c != big_ref))\n".into(),
+            Op::EqTo(xs) => format!("  r.push(c == [{}])\n", ints_cs(xs)),
+            Op::NeTo(xs) => format!("  r.push(not (c != [{}]))\n", ints_cs(xs)),
+            Op::SwapWith(xs) => format!("  tmp = [{}]\n  c.swap(tmp)\n  r.push(tmp)\n", ints_cs(xs)),
+            Op::AddAll(d) => format!("  c.transform(|x| x + {})\n  r.push('u')\n", d),
+            Op::Ins(k, v) => format!("  r.push(c.insert('k{}', {}))\n", k, v),
+            Op::Ins1(k) => format!("  r.push(c.insert('k{}'))\n", k),
+            Op::Put(k, v) => format!("  c.k{} = {}\n  r.push('u')\n", k, v),
+            Op::Rem(k) => format!("  r.push(c.remove('k{}'))\n", k),
+            Op::MGet(k) => format!("  r.push(c.get('k{}'))\n", k),
+            Op::MAccess(k) => format!("  r.push(try_null(|| c.k{}))\n", k),
+            Op::Has(k) => format!("  r.push(c.contains_key('k{}'))\n", k),
             Op::GetI(i) => format!("  r.push(c.get_index({}))\n", i),
+            Op::MExtend(es) => format!("  c.extend({})\n  r.push('u')\n", map_lit(es)),
+            Op::MEqTo(es) => format!("  r.push(c == {})\n", map_lit(es)),
+            Op::Compound(n) => format!("  {}\n  r.push('u')\n", compound_src(n)),
         }
     }
 }
 
-const SCRIPT_HEAD: &str = "set_at = |c, i, x|\n  try\n    c[i] = x\n    'u'\n  catch _\n    'E'\n\n";
+const SCRIPT_HEAD: &str = "set_at = |c, i, x|\n  try\n    c[i] = x\n    'u'\n  catch _\n    'E'\n\nidx_at = |c, i|\n  try\n    c[i]\n  catch _\n    null\n\ntry_call = |f|\n  try\n    f()\n    'u'\n  catch _\n    'E'\n\ntry_val = |f|\n  try\n    f()\n  catch _\n    'E'\n\ntry_null = |f|\n  try\n    f()\n  catch _\n    null\n\n";
+
+/// a large comparison operand is built once at load time (a literal of that size exceeds the
+/// compiler's register limit)
+fn preamble(ops: &[Op]) -> String {
+    for o in ops {
+        if let Op::EqTo(xs) | Op::NeTo(xs) = o {
+            if xs.len() > 50 {
+                let mut s = String::from("big_ref = []\n");
+                for ch in xs.chunks(60) {
+                    s.push_str(&format!("big_ref.extend(({},))\n", ints_cs(ch)));
+                }
+                s.push('\n');
+                return s;
+            }
+        }
+    }
+    String::new()
+}
 
 /// `export run = |c|` applying the operations in order and returning the list of results. Long
 /// programs are cut into helper functions of at most 100 operations (the compiler limits a
-/// function body to 64 KiB of bytecode and 255 registers).
-fn script_of(ops: &[Op]) -> String {
+/// function body to 64 KiB of bytecode and 255 registers). `delay`: iterations of an empty loop
+/// before the first operation (spreads the threads' operations over a long operation's window).
+fn script_of_delayed(ops: &[Op], delay: usize) -> String {
     let mut s = String::from(SCRIPT_HEAD);
+    s.push_str(&preamble(ops));
+    let pre = if delay > 0 { format!("  for d in 0..{}\n    null\n", delay) } else { String::new() };
     if ops.len() <= 100 {
         s.push_str("export run = |c|\n  r = []\n");
+        s.push_str(&pre);
         for o in ops {
             s.push_str(&o.koto());
         }
@@ -97,11 +233,16 @@ fn script_of(ops: &[Op]) -> String {
         s.push_str("  null\n\n");
     }
     s.push_str("export run = |c|\n  r = []\n");
+    s.push_str(&pre);
     for i in 0..chunks.len() {
         s.push_str(&format!("  part{}(c, r)\n", i));
     }
     s.push_str("  r\n");
     s
+}
+
+fn script_of(ops: &[Op]) -> String {
+    script_of_delayed(ops, 0)
 }
 
 #[derive(Clone, Debug, PartialEq, Eq, Hash)]
@@ -117,8 +258,33 @@ fn opt_tok(x: Option<i64>) -> String {
     }
 }
 
+fn val_tok(x: Option<i64>) -> String {
+    match x {
+        Some(v) if v != NULLV => format!("i{}", v),
+        _ => "null".into(),
+    }
+}
+
 fn ints_tok(xs: &[i64]) -> String {
     format!("({})", xs.iter().map(|x| x.to_string()).collect::<Vec<_>>().join(" "))
+}
+
+fn bool_tok(b: bool) -> String {
+    if b { "b1".into() } else { "b0".into() }
+}
+
+fn m_put(m: &mut Vec<(i64, i64)>, k: i64, v: i64) -> Option<i64> {
+    match m.iter_mut().find(|e| e.0 == k) {
+        Some(e) => {
+            let old = e.1;
+            e.1 = v;
+            Some(old)
+        }
+        None => {
+            m.push((k, v));
+            None
+        }
+    }
 }
 
 impl St {
@@ -143,16 +309,17 @@ impl St {
     /// harness-side sequential semantics (search only)
     fn apply(&mut self, op: &Op) -> String {
         match (self, op) {
+            (_, Op::Compound(_)) => "u".into(),
             (St::L(l), Op::Push(x)) => {
                 l.push(*x);
                 "u".into()
             }
             (St::L(l), Op::Pop) => opt_tok(l.pop()),
             (St::L(l), Op::Size) => format!("i{}", l.len()),
-            (St::L(l), Op::Get(i)) => opt_tok(l.get(*i).copied()),
+            (St::L(l), Op::Get(i)) | (St::L(l), Op::GetIdx(i)) => opt_tok(l.get(*i).copied()),
             (St::L(l), Op::First) => opt_tok(l.first().copied()),
             (St::L(l), Op::Last) => opt_tok(l.last().copied()),
-            (St::L(l), Op::Contains(x)) => if l.contains(x) { "b1".into() } else { "b0".into() },
+            (St::L(l), Op::Contains(x)) => bool_tok(l.contains(x)),
             (St::L(l), Op::Set(i, x)) => {
                 if *i < l.len() {
                     l[*i] = *x;
@@ -175,33 +342,88 @@ impl St {
                 l.reverse();
                 "u".into()
             }
-            (St::L(l), Op::Snap) => ints_tok(l),
-            (St::M(m), Op::Ins(k, v)) => match m.iter_mut().find(|e| e.0 == *k) {
-                Some(e) => {
-                    let old = e.1;
-                    e.1 = *v;
-                    format!("i{}", old)
+            (St::L(l), Op::Snap) | (St::L(l), Op::SnapVia(_)) => ints_tok(l),
+            (St::L(l), Op::Sort) => {
+                l.sort();
+                "u".into()
+            }
+            (St::L(l), Op::Resize(n, x)) => {
+                l.resize(*n, *x);
+                "u".into()
+            }
+            (St::L(l), Op::Extend(xs)) | (St::L(l), Op::ExtendVia(_, xs)) => {
+                l.extend(xs.iter().copied());
+                "u".into()
+            }
+            (St::L(l), Op::Insert(i, x)) => {
+                if *i <= l.len() {
+                    l.insert(*i, *x);
+                    "u".into()
+                } else {
+                    "E".into()
                 }
-                None => {
-                    m.push((*k, *v));
-                    "null".into()
+            }
+            (St::L(l), Op::Remove(i)) => {
+                if *i < l.len() {
+                    format!("i{}", l.remove(*i))
+                } else {
+                    "E".into()
                 }
-            },
+            }
+            (St::L(l), Op::Retain(x)) => {
+                l.retain(|e| e == x);
+                "u".into()
+            }
+            (St::L(l), Op::IsEmpty) => bool_tok(l.is_empty()),
+            (St::L(l), Op::EqTo(xs)) | (St::L(l), Op::NeTo(xs)) => bool_tok(l == xs),
+            (St::L(l), Op::SwapWith(xs)) => {
+                let old = std::mem::replace(l, xs.clone());
+                ints_tok(&old)
+            }
+            (St::L(l), Op::AddAll(d)) => {
+                for e in l.iter_mut() {
+                    *e += *d;
+                }
+                "u".into()
+            }
+            (St::M(m), Op::Ins(k, v)) => val_tok(m_put(m, *k, *v)),
+            (St::M(m), Op::Ins1(k)) => val_tok(m_put(m, *k, NULLV)),
+            (St::M(m), Op::Put(k, v)) => {
+                m_put(m, *k, *v);
+                "u".into()
+            }
             (St::M(m), Op::Rem(k)) => match m.iter().position(|e| e.0 == *k) {
-                Some(p) => format!("i{}", m.remove(p).1),
+                Some(p) => val_tok(Some(m.remove(p).1)),
                 None => "null".into(),
             },
-            (St::M(m), Op::MGet(k)) => opt_tok(m.iter().find(|e| e.0 == *k).map(|e| e.1)),
-            (St::M(m), Op::Has(k)) => if m.iter().any(|e| e.0 == *k) { "b1".into() } else { "b0".into() },
+            (St::M(m), Op::MGet(k)) => val_tok(m.iter().find(|e| e.0 == *k).map(|e| e.1)),
+            (St::M(m), Op::MAccess(k)) => match m.iter().find(|e| e.0 == *k) {
+                Some(e) => val_tok(Some(e.1)),
+                None => "null".into(),
+            },
+            (St::M(m), Op::Has(k)) => bool_tok(m.iter().any(|e| e.0 == *k)),
             (St::M(m), Op::MSize) => format!("i{}", m.len()),
             (St::M(m), Op::MClear) => {
                 m.clear();
                 "u".into()
             }
-            (St::M(m), Op::GetI(i)) => match m.get(*i) {
+            (St::M(m), Op::GetI(i)) | (St::M(m), Op::MIdx(i)) => match m.get(*i) {
                 Some((k, v)) => format!("({} {})", k, v),
                 None => "null".into(),
             },
+            (St::M(m), Op::MSort) => {
+                m.sort_by_key(|e| e.0);
+                "u".into()
+            }
+            (St::M(m), Op::MExtend(es)) => {
+                for (k, v) in es {
+                    m_put(m, *k, *v);
+                }
+                "u".into()
+            }
+            (St::M(m), Op::MIsEmpty) => bool_tok(m.is_empty()),
+            (St::M(m), Op::MSnapVia(_)) => ints_tok(&m.iter().flat_map(|e| [e.0, e.1]).collect::<Vec<_>>()),
+            (St::M(m), Op::MEqTo(es)) => bool_tok(m.len() == es.len() && m.iter().all(|e| es.iter().any(|f| f == e))),
             _ => "bad-op".into(),
         }
     }
@@ -252,7 +474,11 @@ fn find_linearization(init: &St, progs: &[Vec<Op>], observed: &[Vec<String>], fi
     let mut pos = vec![0; progs.len()];
     let mut order = vec![];
     let mut dead = HashSet::new();
-    let mut budget = 2_000_000u64;
+    let big = match init {
+        St::L(l) => l.len() > 100,
+        St::M(m) => m.len() > 100,
+    };
+    let mut budget = if big { 20_000u64 } else { 2_000_000u64 };
     if go(init, &mut pos, progs, observed, fin, &mut order, &mut dead, &mut budget) {
         Ok(Some(order))
     } else if budget == 0 {
